@@ -28,6 +28,8 @@ ABT_bool vf_ready_at_acq, vf_ready_at_rel;
 #define NB 16
 static ABTI_eventual ev;
 static unsigned char buf[NB], src[NB], buf0[NB];
+static size_t f_nb; static void *f_val; static ABTI_waitlist f_wl;
+#define FRAME_EV VF_ASSERT(ev.nbytes == f_nb && ev.value == f_val && ev.waitlist.p_head == f_wl.p_head && ev.waitlist.p_tail == f_wl.p_tail && ev.waitlist.futex.val.val == f_wl.futex.val.val, "frame: buffer size, buffer pointer and the wait-list words (head, tail, futex generation counter) are not written by this routine (the wait list changes only inside the wait-list operations)")
 static void setup(void)
 {
     size_t nb;
@@ -36,7 +38,7 @@ static void setup(void)
     ev.value = nb ? buf : NULL;
     VF_ASSUME(ev.ready == ABT_TRUE || ev.ready == ABT_FALSE);
     for (int i = 0; i < NB; i++) { unsigned char c, d; buf[i] = c; buf0[i] = c; src[i] = d; }
-    vf_ev = &ev;
+    vf_ev = &ev; f_nb = ev.nbytes; f_val = ev.value; f_wl = ev.waitlist;
     vf_lock_held = 0;
     VF_ASSUME(vf_clock < 100 && vf_acquires < 100 && vf_releases < 100 && vf_wl_bcasts < 100 && vf_wl_waits < 100);
 }
@@ -71,6 +73,7 @@ void h_eventual_set(void)
         for (int i = 0; i < NB; i++)
             VF_ASSERT(buf[i] == buf0[i], "failed set: stored value untouched");
     }
+    FRAME_EV;
     VF_REACH("set returns");
     VF_COVER(r == ABT_SUCCESS && nbytes > 3, "first set");
     VF_COVER(r == ABT_ERR_EVENTUAL, "second set");
@@ -98,6 +101,7 @@ void h_eventual_wait(void)
     VF_ASSERT(vf_wl_waits == w0 + (ready0 == ABT_FALSE ? 1 : 0), "waits iff the eventual was seen not ready under the lock");
     VF_ASSERT(ev.ready == ABT_TRUE, "returns only once the eventual is ready");
     VF_ASSERT(val == ev.value, "hands out the eventual's value buffer");
+    FRAME_EV;
     VF_REACH("wait returns");
     VF_COVER(ready0 == ABT_FALSE, "blocked"); VF_COVER(ready0 == ABT_TRUE, "already ready");
 }
@@ -115,6 +119,7 @@ void h_eventual_test(void)
     VF_ASSERT(flag == ready0, "reports ready iff ready was observed under the lock");
     VF_ASSERT(ready0 ? val == ev.value : val == (void *)0x55, "value written only when ready");
     VF_ASSERT(ev.ready == ready0, "test changes nothing");
+    FRAME_EV;
     VF_REACH("test returns");
     VF_COVER(flag == ABT_TRUE, "ready"); VF_COVER(flag == ABT_FALSE, "not ready");
 }
@@ -127,6 +132,7 @@ void h_eventual_reset(void)
     VF_ASSERT(r == ABT_SUCCESS && ev.ready == ABT_FALSE && vf_lock_held == 0, "reset: not ready, lock released");
     VF_ASSERT(vf_ready_at_rel == ABT_FALSE && ev.ready == vf_ready_at_rel, "the flag is cleared inside the critical section: in place when the lock is released, not written afterwards (a reset cannot interleave with a set)");
     VF_ASSERT(ev.value == (ev.nbytes ? (void *)buf : NULL), "buffer pointer kept");
+    FRAME_EV;
     VF_REACH("reset returns");
 }
 
